@@ -734,6 +734,17 @@ func (vc *VC) builtin(b *ssa.Builtin, c *ssa.CallCommon, v ssa.Value, st *State,
 	case "close":
 		ch := vc.val(c.Args[0])
 		B := types.Typ[types.Bool]
+		// a channel field with a single close site in the whole module can only have been closed by an
+		// earlier execution of this very statement: its closed bit is what it was at function entry
+		if ld, ok := c.Args[0].(*ssa.UnOp); ok && ld.Op == token.MUL {
+			if fa, ok := ld.X.(*ssa.FieldAddr); ok {
+				pt := fa.X.Type().Underlying().(*types.Pointer).Elem()
+				if vc.prog.singleCloseSite(fieldKey(pt, fa.Field)) && vc.loopContaining(vc.cur) == nil {
+					vc.assumeNote("a channel field with a single close site in the module is not closed by anyone else")
+					vc.assume(vc.guard(), eq(vc.heapRead(st, "#closed", B, ch.S), vc.heapRead(vc.entrySt, "#closed", B, ch.S)))
+				}
+			}
+		}
 		vc.oblige("close-nil-chan", "", not(eq(ch.S, "lnil")), pos)
 		vc.oblige("close-closed-chan", "", not(vc.heapRead(st, "#closed", B, ch.S)), pos)
 		vc.heapWrite(st, "#closed", B, ch.S, "true")
